@@ -459,7 +459,13 @@ impl Mps {
 
     fn from_lines(lines: impl Iterator<Item = String>) -> Result<Self> {
         let mut state = State::default();
+        let mut ended = false;
         for line in lines {
+            // Data after ENDATA is ignored, but the input is still read to its end: a read error or a
+            // checksum mismatch of a gzip stream is only known then.
+            if ended {
+                continue;
+            }
             if line.trim().is_empty() {
                 continue;
             }
@@ -500,7 +506,7 @@ impl Mps {
                 Cursor::Ranges => state.read_range_field(fields)?,
                 Cursor::Bounds => state.read_bound_field(fields)?,
                 Cursor::Name => return Err(MpsParseError::InvalidHeader(line)),
-                Cursor::End => break,
+                Cursor::End => ended = true,
             }
         }
         Ok(state.finish())
